@@ -128,6 +128,27 @@ def exc_matches(raised: str, handler: str) -> bool:
   return raised == handler or handler in EXC_BASES.get(raised, ['Exception'])
 
 
+_NP_PARENTS = {
+    'generic': None, 'number': 'generic', 'bool_': 'generic', 'object_': 'generic', 'flexible': 'generic', 'character': 'flexible', 'str_': 'character', 'bytes_': 'character',
+    'integer': 'number', 'inexact': 'number', 'signedinteger': 'integer', 'unsignedinteger': 'integer', 'floating': 'inexact', 'complexfloating': 'inexact',
+    'int8': 'signedinteger', 'int16': 'signedinteger', 'int32': 'signedinteger', 'int64': 'signedinteger',
+    'uint8': 'unsignedinteger', 'uint16': 'unsignedinteger', 'uint32': 'unsignedinteger', 'uint64': 'unsignedinteger',
+    'float16': 'floating', 'float32': 'floating', 'float64': 'floating', 'complex64': 'complexfloating', 'complex128': 'complexfloating',
+}
+
+
+def _issubdtype(a: str, b: str):
+  """np.issubdtype on two named numpy scalar types (numpy's documented type hierarchy); None when a name is unknown."""
+  a, b = a.split('.')[-1], b.split('.')[-1]
+  if a not in _NP_PARENTS or b not in _NP_PARENTS:
+    return None
+  while a is not None:
+    if a == b:
+      return True
+    a = _NP_PARENTS[a]
+  return False
+
+
 @dataclasses.dataclass
 class Outcome:
   kind: str  # 'return' | 'raise'
@@ -729,6 +750,11 @@ class Interp:
       ci = self._class(base.cls)
       if ci is not None and attr in ci.methods:
         return BoundObj(base, ci.methods[attr])
+      if base.cls.startswith('x:'):
+        # a stand-in for a generated flatbuffer object: the fields the rule did not spell out have the schema's defaults
+        d = consteval.schema_object_defaults(base.cls[2:])
+        if d is not None and attr in d:
+          return d[attr]
       raise _Raise('AttributeError', attr, node)
     if isinstance(base, EnumVal):
       if attr == 'value':
@@ -899,6 +925,10 @@ class Interp:
       return out
     if fname in self.hooks:
       return self.hooks[fname](args, kwargs)
+    if fname in ('np.issubdtype', 'numpy.issubdtype') and len(args) == 2 and all(isinstance(a, Ext) and a.value is None for a in args):
+      r = _issubdtype(args[0].name, args[1].name)
+      if r is not None:
+        return r
     if fname in ('cast', 'typing.cast') and len(args) == 2 and 'cast' not in env:
       return args[1]
     if _root_name(node.func) not in env and isinstance(
